@@ -199,6 +199,12 @@ def step (st : St) (m : Msg) : St × Out :=
         if done then ({ st with c := c2, finished := true }, .submitted subs)
         else ({ st with c := c2 }, .reconstructFailed subs)
 
+/-- `baseSetupForNewDuty` on the SAME runner object: a later duty gets a fresh `runner.State` (empty containers,
+    `Finished = false`, no decided value); quorum, committee and runner style stay. Nothing of the previous duty survives
+    in the collection state (the expected roots are those of the new duty: ids are per duty). -/
+def nextDuty (st : St) (decided : Bool) : St :=
+  { st with decided := decided, c := Container.empty, finished := false }
+
 /-- the consensus instance of the duty decides (`State.DecidedValue` set) -/
 def decide' (st : St) : St := { st with decided := true }
 
